@@ -75,6 +75,20 @@ func (s *memStore) Save(d *store.PersistedData) error {
 	return nil
 }
 
+// fixedStore hands out a prepared snapshot (a store left behind by an earlier run).
+type fixedStore struct {
+	mu   sync.Mutex
+	data *store.PersistedData
+}
+
+func (s *fixedStore) Load() (*store.PersistedData, error) { return s.data, nil }
+func (s *fixedStore) Save(d *store.PersistedData) error {
+	s.mu.Lock()
+	s.data = d
+	s.mu.Unlock()
+	return nil
+}
+
 // realWorld is a PipelineRunner wired exactly as app.appAction wires it (real TaskRunner per job,
 // pipeline env as runner env, real FileOutputStore).
 type realWorld struct {
